@@ -1220,3 +1220,377 @@ Proof.
   intros n ls a Hr Hb Hp h Hh. apply (atomic_linearizable n ls a Hr Hb).
   apply (roundtrip_allowed _ Hp). exact Hh.
 Qed.
+
+(** * Range of the recorded numbers: process ids below the number of processes, values below the
+      write counter (or nil) — hence every line is printable when both fit Go's int *)
+
+Definition vb (b x : N) : Prop := x = nilv \/ x < b.
+Definition cpc_ok (b : N) (c : cpc) : Prop :=
+  match c with
+  | CNone | CRecorded => True
+  | CSpawned o | CInRpc o | CStopSet o => op_lt o b
+  | CReturned o r => op_lt o b /\ match o, r with OpRead, ROk v => vb b v | _, _ => True end
+  end.
+Definition ev_ok (n b : N) (e : Jepsen.event) : Prop :=
+  e_id e < n /\
+  match e_type e, e_res e with
+  | TRead, RCompleted => vb b (e_val e)
+  | TWrite, RInvoked | TWrite, RCompleted => e_val e < b
+  | _, _ => True
+  end.
+Definition sched_ok (n b : N) (sc : spc) : Prop :=
+  match sc with SIdle => True | SPicked p o | SRecorded p o | SBusy p o => p < n /\ op_lt o b end.
+
+Record BInv (n : N) (a : astate) : Prop := mkBInv {
+  b_n : nprocs (a_s a) = n;
+  b_ev : Forall (ev_ok n (value (a_s a))) (revents (a_s a));
+  b_reg : vb (value (a_s a)) (a_reg a);
+  b_eff : forall p x, a_eff a p = Some x -> vb (value (a_s a)) x;
+  b_late : forall p v, a_late a p = Some v -> v < value (a_s a);
+  b_sched : sched_ok n (value (a_s a)) (sched (a_s a));
+  b_pc : forall p, cpc_ok (value (a_s a)) (pc (procs (a_s a) p)) /\ (pc (procs (a_s a) p) <> CNone -> p < n)
+}.
+
+Lemma op_lt_mono : forall o b b', b <= b' -> op_lt o b -> op_lt o b'.
+Proof. intros o b b' H. destruct o; cbn [op_lt]; [tauto|lia]. Qed.
+Lemma vb_mono : forall b b' x, b <= b' -> vb b x -> vb b' x.
+Proof. intros b b' x H [E|E]; [left; exact E|right; lia]. Qed.
+Lemma cpc_ok_mono : forall b b' c, b <= b' -> cpc_ok b c -> cpc_ok b' c.
+Proof.
+  intros b b' c H. destruct c as [|o|o|o r|o|]; cbn [cpc_ok]; try tauto; try apply op_lt_mono; try exact H.
+  intros [H1 H2]. split; [exact (op_lt_mono _ _ _ H H1)|]. destruct o; [|exact I]. destruct r; [exact (vb_mono _ _ _ H H2)|exact I].
+Qed.
+Lemma ev_ok_mono : forall n b b' e, b <= b' -> ev_ok n b e -> ev_ok n b' e.
+Proof.
+  intros n b b' e H [H1 H2]. split; [exact H1|]. destruct (e_type e), (e_res e); try exact I; try lia.
+  exact (vb_mono _ _ _ H H2).
+Qed.
+
+Lemma binv_init : forall n, BInv n (ainit n).
+Proof.
+  intros n. constructor; cbn [ainit a_s a_reg a_eff a_late init nprocs revents value sched procs pc].
+  - reflexivity.
+  - constructor.
+  - left. reflexivity.
+  - intros p x H. discriminate H.
+  - intros p v H. discriminate H.
+  - exact I.
+  - intros p. split; [exact I|intros H; exfalso; apply H; reflexivity].
+Qed.
+
+Lemma binv_step : forall n a l a', BInv n a -> astep a l = Some a' -> BInv n a'.
+Proof.
+  intros n a l a' HB Ha. destruct HB as [Bn Bev Breg Beff Blate Bsched Bpc].
+  destruct l as [l|p|p]; cbn [astep] in Ha.
+  - destruct (Recorder.step (a_s a) l) as [s'|] eqn:Hs; [|discriminate Ha].
+    destruct l as [p w| | | |p|p r|p|p|p]; cbn [Recorder.step] in Hs.
+    + (* pick *)
+      injection Ha as Ha; subst a'.
+      destruct (sched (a_s a)) eqn:Hsc; try discriminate Hs.
+      destruct ((p <? nprocs (a_s a)) && idle (procs (a_s a) p) && negb (stopped (procs (a_s a) p))) eqn:Hc; [|discriminate Hs].
+      assert (Hp : p < n) by lia.
+      destruct w; injection Hs as Hs; subst s'; constructor; cbn [a_s a_reg a_eff a_late set_value set_sched nprocs revents value sched procs];
+        try assumption.
+      * eapply Forall_impl; [|exact Bev]. intros e He. apply (ev_ok_mono _ (value (a_s a))); [lia|exact He].
+      * apply (vb_mono (value (a_s a))); [lia|exact Breg].
+      * intros q x Hx. apply (vb_mono (value (a_s a))); [lia|exact (Beff q x Hx)].
+      * intros q v Hv. pose proof (Blate q v Hv). lia.
+      * cbn [sched_ok op_lt]. lia.
+      * intros q. destruct (Bpc q) as [H1 H2]. split; [apply (cpc_ok_mono (value (a_s a))); [lia|exact H1]|exact H2].
+      * cbn [sched_ok op_lt]. tauto.
+    + (* record invoke *)
+      injection Ha as Ha; subst a'.
+      destruct (sched (a_s a)) as [|p o|p o|p o] eqn:Hsc; try discriminate Hs. injection Hs as Hs; subst s'.
+      cbn [sched_ok] in Bsched. destruct Bsched as [Hp Ho].
+      constructor; cbn [a_s a_reg a_eff a_late set_sched record nprocs revents value sched procs]; try assumption.
+      * constructor; [|exact Bev]. destruct o; cbn [invoke_event]; split; cbn [e_id e_type e_res e_val]; try exact Hp; try exact I. exact Ho.
+      * cbn [sched_ok]. tauto.
+    + (* set busy *)
+      injection Ha as Ha; subst a'.
+      destruct (sched (a_s a)) as [|p o|p o|p o] eqn:Hsc; try discriminate Hs. injection Hs as Hs; subst s'.
+      constructor; cbn [a_s a_reg a_eff a_late set_sched set_procs nprocs revents value sched procs]; try assumption.
+      intros q. rewrite pc_upd. cbn [pc]. destruct (N.eqb_spec q p) as [->|_]; exact (Bpc _).
+    + (* spawn *)
+      injection Ha as Ha; subst a'.
+      destruct (sched (a_s a)) as [|p o|p o|p o] eqn:Hsc; try discriminate Hs.
+      destruct (pc (procs (a_s a) p)); try discriminate Hs. injection Hs as Hs; subst s'.
+      cbn [sched_ok] in Bsched. destruct Bsched as [Hp Ho].
+      constructor; cbn [a_s a_reg a_eff a_late set_sched set_procs nprocs revents value sched procs]; try assumption.
+      * exact I.
+      * intros q. rewrite pc_upd. cbn [pc]. destruct (N.eqb_spec q p) as [->|_]; [|exact (Bpc _)].
+        cbn [cpc_ok]. split; [exact Ho|intros _; exact Hp].
+    + (* rpc start *)
+      injection Ha as Ha; subst a'.
+      destruct (pc (procs (a_s a) p)) as [|o|o|o r|o|] eqn:Hpc; try discriminate Hs. injection Hs as Hs; subst s'.
+      destruct (Bpc p) as [H1 H2]. rewrite Hpc in H1, H2.
+      constructor; cbn [a_s a_reg a_eff a_late observe set_procs nprocs revents value sched procs]; try assumption.
+      intros q. rewrite pc_upd. cbn [pc]. destruct (N.eqb_spec q p) as [->|_]; [|exact (Bpc _)].
+      split; [exact H1|intros _; apply H2; discriminate].
+    + (* rpc return *)
+      destruct (pc (procs (a_s a) p)) as [|o|o|o r0|o|] eqn:Hpc; try discriminate Hs. injection Hs as Hs; subst s'.
+      destruct (Bpc p) as [H1 H2]. rewrite Hpc in H1, H2. cbn [cpc_ok] in H1.
+      assert (Hgen : forall late', (forall q v, late' q = Some v -> v < value (a_s a)) ->
+                match o, r with OpRead, ROk v => vb (value (a_s a)) v | _, _ => True end ->
+                BInv n (mkA (observe (set_procs (a_s a) (upd (procs (a_s a)) p
+                         (mkProc (idle (procs (a_s a) p)) (stopped (procs (a_s a) p)) (CReturned o r)))) (ORet p r))
+                        (a_reg a) (a_eff a) late')).
+      { intros late' Hl Hv. constructor; cbn [a_s a_reg a_eff a_late observe set_procs nprocs revents value sched procs]; try assumption.
+        intros q. rewrite pc_upd. cbn [pc]. destruct (N.eqb_spec q p) as [->|_]; [|exact (Bpc _)].
+        cbn [cpc_ok]. split; [split; [exact H1|exact Hv]|intros _; apply H2; discriminate]. }
+      destruct r as [v|].
+      * destruct o as [|w]; destruct (a_eff a p) as [x|] eqn:Heff; try discriminate Ha.
+        -- destruct (N.eqb_spec v x) as [E|E]; [|discriminate Ha]. subst x. injection Ha as Ha; subst a'.
+           apply Hgen; [exact Blate|exact (Beff p v Heff)].
+        -- injection Ha as Ha; subst a'. apply Hgen; [exact Blate|exact I].
+      * destruct o as [|w]; [injection Ha as Ha; subst a'; apply Hgen; [exact Blate|exact I]|].
+        destruct (a_eff a p) as [x|]; injection Ha as Ha; subst a'; (apply Hgen; [|exact I]); [exact Blate|].
+        intros q v Hv. unfold oupd in Hv. destruct (q =? p); [injection Hv as Hv; subst v; exact H1|exact (Blate q v Hv)].
+    + (* set stopped *)
+      injection Ha as Ha; subst a'.
+      destruct (pc (procs (a_s a) p)) as [|o|o|o r|o|] eqn:Hpc; try discriminate Hs. destruct r; [discriminate Hs|].
+      injection Hs as Hs; subst s'.
+      destruct (Bpc p) as [H1 H2]. rewrite Hpc in H1, H2. cbn [cpc_ok] in H1.
+      constructor; cbn [a_s a_reg a_eff a_late set_procs nprocs revents value sched procs]; try assumption.
+      intros q. rewrite pc_upd. cbn [pc]. destruct (N.eqb_spec q p) as [->|_]; [|exact (Bpc _)].
+      cbn [cpc_ok]. split; [tauto|intros _; apply H2; discriminate].
+    + (* record done *)
+      injection Ha as Ha; subst a'.
+      destruct (Bpc p) as [H1 H2].
+      assert (Hgen : forall e, ev_ok n (value (a_s a)) e ->
+                BInv n (mkA (record (set_procs (a_s a) (upd (procs (a_s a)) p
+                         (mkProc (idle (procs (a_s a) p)) (stopped (procs (a_s a) p)) CRecorded))) e)
+                        (a_reg a) (oupd (a_eff a) p None) (a_late a))).
+      { intros e He. constructor; cbn [a_s a_reg a_eff a_late record set_procs nprocs revents value sched procs]; try assumption.
+        - constructor; assumption.
+        - intros q x Hx. unfold oupd in Hx. destruct (q =? p); [discriminate Hx|exact (Beff q x Hx)].
+        - intros q. rewrite pc_upd. cbn [pc]. destruct (N.eqb_spec q p) as [->|_]; [|exact (Bpc _)].
+          cbn [cpc_ok]. split; [exact I|intros _; apply H2]. destruct (pc (procs (a_s a) p)); try discriminate; discriminate Hs. }
+      destruct (pc (procs (a_s a) p)) as [|o|o|o r|o|] eqn:Hpc; try discriminate Hs.
+      * destruct r as [v|]; [|discriminate Hs]. injection Hs as Hs; subst s'. apply Hgen.
+        cbn [cpc_ok] in H1. destruct H1 as [G1 G2].
+        destruct o; cbn [done_event]; split; cbn [e_id e_type e_res e_val]; try (apply H2; discriminate); assumption.
+      * injection Hs as Hs; subst s'. apply Hgen.
+        destruct o; cbn [done_event]; split; cbn [e_id e_type e_res e_val]; try (apply H2; discriminate); exact I.
+    + (* set idle *)
+      injection Ha as Ha; subst a'.
+      destruct (pc (procs (a_s a) p)) as [|o|o|o r|o|] eqn:Hpc; try discriminate Hs. injection Hs as Hs; subst s'.
+      constructor; cbn [a_s a_reg a_eff a_late set_procs nprocs revents value sched procs]; try assumption.
+      intros q. rewrite pc_upd. cbn [pc]. destruct (N.eqb_spec q p) as [->|_]; [|exact (Bpc _)].
+      cbn [cpc_ok]. split; [exact I|intros C; exfalso; apply C; reflexivity].
+  - (* effect *)
+    destruct (Bpc p) as [H1 _].
+    destruct (pc (procs (a_s a) p)) as [|o|o|o r|o|] eqn:Hpc; try discriminate Ha. cbn [cpc_ok] in H1.
+    destruct o as [|v]; destruct (a_eff a p) eqn:Heff; try discriminate Ha; injection Ha as Ha; subst a';
+      constructor; cbn [a_s a_reg a_eff a_late]; try assumption.
+    + intros q x Hx. unfold oupd in Hx. destruct (q =? p); [injection Hx as Hx; subst x; exact Breg|exact (Beff q x Hx)].
+    + right. exact H1.
+    + intros q x Hx. unfold oupd in Hx. destruct (q =? p); [injection Hx as Hx; subst x; right; exact H1|exact (Beff q x Hx)].
+  - (* late *)
+    destruct (a_late a p) as [v|] eqn:Hl; [|discriminate Ha]. destruct (a_eff a p) eqn:Heff; [discriminate Ha|].
+    injection Ha as Ha; subst a'. pose proof (Blate p v Hl) as Hv.
+    constructor; cbn [a_s a_reg a_eff a_late]; try assumption.
+    + right. exact Hv.
+    + intros q x Hx. unfold oupd in Hx. destruct (q =? p); [injection Hx as Hx; subst x; right; exact Hv|exact (Beff q x Hx)].
+    + intros q x Hx. unfold oupd in Hx. destruct (q =? p); [discriminate Hx|exact (Blate q x Hx)].
+Qed.
+
+Lemma binv_run : forall n ls a a', BInv n a -> arun a ls = Some a' -> BInv n a'.
+Proof.
+  intros n. induction ls as [|l ls IH]; intros a a' HB H; cbn [arun] in H.
+  - injection H as H; subst a'. exact HB.
+  - destruct (astep a l) as [a1|] eqn:Ha; [|discriminate H]. exact (IH _ _ (binv_step _ _ _ _ HB Ha) H).
+Qed.
+
+Lemma ev_ok_printable : forall n b e, n <= max_int + 1 -> b <= max_int + 1 -> ev_ok n b e -> printable e = true.
+Proof.
+  intros n b e Hn Hb [H1 H2]. unfold printable. unfold vb in H2.
+  destruct (e_type e), (e_res e); lia.
+Qed.
+
+(** with at most 2^63 processes and fewer than 2^63 writes every recorded line is printable *)
+Theorem atomic_printable : forall n ls a, arun (ainit n) ls = Some a ->
+  n <= max_int + 1 -> value (a_s a) <= max_int + 1 -> Forall (fun e => printable e = true) (events (a_s a)).
+Proof.
+  intros n ls a Hr Hn Hb. pose proof (binv_run n ls _ _ (binv_init n) Hr) as HB.
+  unfold events. apply Forall_rev. eapply Forall_impl; [|exact (b_ev _ _ HB)].
+  intros e He. exact (ev_ok_printable _ _ _ Hn Hb He).
+Qed.
+
+(** The statement of C07_accepts_linearizable: at most 2^63 processes (ids fit Go's int), fewer
+    than 2^63 writes (values fit Go's int). *)
+Theorem atomic_run_accepted : forall n ls a, arun (ainit n) ls = Some a ->
+  n <= max_int + 1 -> value (a_s a) <= max_int + 1 ->
+  forall h, parse_allowed (format_log (events (a_s a))) h -> wf h /\ linearizable h /\ check h = true.
+Proof.
+  intros n ls a Hr Hn Hb. apply (atomic_log_accepted n ls a Hr).
+  - unfold max_int, nilv in *. lia.
+  - exact (atomic_printable n ls a Hr Hn Hb).
+Qed.
+
+(** * Every well-formed event list (atomic service or not) describes a complete history: each
+      operation has exactly one call and exactly one later return *)
+
+Record HC (main : history) (pm : pmap) (next : N) : Prop := mkHC {
+  hc_c1 : NoDup (call_ids main);
+  hc_c2 : forall id, In id (call_ids main) -> id < next;
+  hc_c3 : NoDup (ret_ids main);
+  hc_c4 : NoDup (map fst pm);
+  hc_c4' : NoDup (map snd pm);
+  hc_c5 : forall id, In id (call_ids main) <-> (In id (ret_ids main) \/ In id (map snd pm));
+  hc_c6 : forall id, In id (ret_ids main) -> ~ In id (map snd pm);
+  hc_c7 : forall h1 id o h2, main = h1 ++ Ret id o :: h2 -> In id (call_ids h1)
+}.
+
+Lemma hc_call : forall main pm next p i, HC main pm next -> ~ In p (map fst pm) ->
+  HC (main ++ [Call next i]) ((p, next) :: pm) (next + 1).
+Proof.
+  intros main pm next p i H Hp. destruct H as [C1 C2 C3 C4 C4' C5 C6 C7].
+  assert (Hnext : ~ In next (call_ids main)).
+  { intro Hin. apply C2 in Hin. lia. }
+  assert (Hnext' : ~ In next (map snd pm)).
+  { intro Hin. apply Hnext. apply C5. right. exact Hin. }
+  constructor.
+  - rewrite call_ids_app. cbn [call_ids]. apply nodup_snoc; assumption.
+  - intros id Hin. rewrite call_ids_app in Hin. cbn [call_ids] in Hin. apply in_app_or in Hin.
+    destruct Hin as [Hin|[E|[]]]; [apply C2 in Hin|]; lia.
+  - rewrite ret_ids_app. cbn [ret_ids]. rewrite app_nil_r. assumption.
+  - cbn [map fst]. constructor; assumption.
+  - cbn [map snd]. constructor; assumption.
+  - intros id. rewrite call_ids_app, ret_ids_app. cbn [call_ids ret_ids map snd]. rewrite app_nil_r, in_app_iff, C5.
+    cbn [In]. tauto.
+  - intros id Hin. rewrite ret_ids_app in Hin. cbn [ret_ids] in Hin. rewrite app_nil_r in Hin.
+    cbn [map snd In]. intros [E|Hin']; [|exact (C6 id Hin Hin')].
+    subst id. apply Hnext. apply C5. left. exact Hin.
+  - intros h1 id o h2 E. apply snoc_split in E. destruct E as [[_ [_ E]]|[h2' [_ E]]]; [discriminate E|].
+    exact (C7 _ _ _ _ E).
+Qed.
+
+Lemma hc_ret : forall main pm next p id o, HC main pm next -> In (p, id) pm ->
+  HC (main ++ [Ret id o]) (pm_del pm p) next.
+Proof.
+  intros main pm next p id o H Hin. destruct H as [C1 C2 C3 C4 C4' C5 C6 C7].
+  assert (Hcall : In id (call_ids main)) by (apply C5; right; exact (in_snd _ _ _ Hin)).
+  assert (Hnr : ~ In id (ret_ids main)).
+  { intro Hr. exact (C6 id Hr (in_snd _ _ _ Hin)). }
+  constructor.
+  - rewrite call_ids_app. cbn [call_ids]. rewrite app_nil_r. assumption.
+  - intros id' Hin'. rewrite call_ids_app in Hin'. cbn [call_ids] in Hin'. rewrite app_nil_r in Hin'. exact (C2 id' Hin').
+  - rewrite ret_ids_app. cbn [ret_ids]. apply nodup_snoc; assumption.
+  - apply nodup_map_filter. assumption.
+  - apply nodup_map_filter. assumption.
+  - intros id'. rewrite call_ids_app, ret_ids_app. cbn [call_ids ret_ids]. rewrite app_nil_r, in_app_iff.
+    rewrite (snd_pm_del pm p id id' C4 C4' Hin), C5. cbn [In].
+    destruct (N.eq_dec id' id) as [E|E]; [subst id'|].
+    + split; [intros _; left; right; left; reflexivity|intros _; right; exact (in_snd _ _ _ Hin)].
+    + assert (E' : id <> id') by congruence. tauto.
+  - intros id' Hin'. rewrite ret_ids_app in Hin'. cbn [ret_ids] in Hin'. apply in_app_or in Hin'.
+    rewrite (snd_pm_del pm p id id' C4 C4' Hin). intros [H1 H2].
+    destruct Hin' as [Hin'|[E|[]]]; [exact (C6 id' Hin' H1)|]. apply H2. symmetry. exact E.
+  - intros h1 id' o' h2 E. apply snoc_split in E. destruct E as [[_ [E1 E2]]|[h2' [_ E]]].
+    + injection E2 as E2 _. subst h1 id'. exact Hcall.
+    + exact (C7 _ _ _ _ E).
+Qed.
+
+Lemma hc_final : forall main pm next tail, HC main pm next -> Permutation tail (map snd pm) ->
+  wf (main ++ unknown_rets tail).
+Proof.
+  intros main pm next tail H Hperm. destruct H as [C1 C2 C3 C4 C4' C5 C6 C7].
+  assert (Htnd : NoDup tail) by (apply (Permutation_NoDup (Permutation_sym Hperm)); exact C4').
+  assert (Htin : forall id, In id tail <-> In id (map snd pm)).
+  { intros id. split; [apply Permutation_in; exact Hperm|apply Permutation_in, Permutation_sym; exact Hperm]. }
+  unfold wf. rewrite call_ids_app, call_ids_unknown_rets, app_nil_r, ret_ids_app, ret_ids_unknown_rets.
+  split; [exact C1|]. split; [|split].
+  - apply nodup_app; [exact C3|exact Htnd|]. intros id Hin Hin'. apply Htin in Hin'. exact (C6 id Hin Hin').
+  - intros id Hin. apply in_or_app. apply C5 in Hin. destruct Hin as [Hin|Hin]; [left; exact Hin|right; apply Htin; exact Hin].
+  - intros h1 id o h2 E. apply app_eq_app in E. destruct E as [l [[E1 E2]|[E1 E2]]].
+    + destruct l as [|x l].
+      * rewrite app_nil_r in E1. subst h1. cbn [app] in E2. apply C5. right. apply Htin.
+        assert (Hin : In (Ret id o) (unknown_rets tail)) by (rewrite <- E2; left; reflexivity).
+        apply in_unknown_rets in Hin. destruct Hin as [id' [E Hin]]. injection E as E _. subst id'. exact Hin.
+      * cbn [app] in E2. injection E2 as E2 _. subst x. exact (C7 _ _ _ _ E1).
+    + subst h1. rewrite call_ids_app. apply in_or_app. left. apply C5. right. apply Htin.
+      assert (Hin : In (Ret id o) (unknown_rets tail)) by (rewrite E2; apply in_elt).
+      apply in_unknown_rets in Hin. destruct Hin as [id' [E Hin]]. injection E as E _. subst id'. exact Hin.
+Qed.
+
+(** history monitor vs. the parser's map: a process has an entry iff its operation is pending
+    (a process that failed keeps whatever it had) *)
+Definition keys_ok (em : emon) (pm : pmap) : Prop :=
+  forall p, match em_of em p with
+            | EReady => ~ In p (map fst pm)
+            | EPending _ => In p (map fst pm)
+            | EDead => True
+            end.
+
+Lemma in_keys_del : forall (pm : pmap) p q, In q (map fst (pm_del pm p)) <-> In q (map fst pm) /\ q <> p.
+Proof.
+  intros pm p q. split.
+  - intros H. apply in_map_iff in H. destruct H as [[k v] [E H]]. cbn [fst] in E. subst k.
+    apply in_pm_del in H. destruct H as [H Hq]. split; [exact (in_fst _ _ _ H)|exact Hq].
+  - intros [H Hq]. apply in_map_iff in H. destruct H as [[k v] [E H]]. cbn [fst] in E. subst k.
+    apply in_map_iff. exists (q, v). split; [reflexivity|]. apply in_pm_del. split; assumption.
+Qed.
+
+Lemma hc_events : forall es em, emon_run emon_init es = Some em ->
+  HC (rev (ps_rev (hstate es))) (ps_map (hstate es)) (ps_next (hstate es)) /\ keys_ok em (ps_map (hstate es)).
+Proof.
+  intros es. induction es as [|e es IH] using rev_ind; intros em Hrun.
+  - cbn in Hrun. injection Hrun as Hrun; subst em. split.
+    + constructor; cbn [hstate fold_left map ps_init ps_rev ps_map ps_next rev call_ids ret_ids fst snd In].
+      * constructor.
+      * intros id [].
+      * constructor.
+      * constructor.
+      * constructor.
+      * intros id. split; [intros []|intros [[]|[]]].
+      * intros id [].
+      * intros h1 id o h2 H. destruct h1; discriminate H.
+    + intros p. cbn. intros [].
+  - rewrite emon_run_snoc in Hrun. destruct (emon_run emon_init es) as [em0|] eqn:H0; [|discriminate Hrun].
+    destruct (IH em0 eq_refl) as [HCo HK]. clear IH.
+    destruct (emon_step_cases _ _ _ Hrun) as [Hoth [_ Hres]]. cbv zeta in Hoth, Hres.
+    rewrite hstate_snoc. set (H := hstate es) in *. set (p := e_id e) in *.
+    assert (Hret : forall out, (exists o, em_of em0 p = EPending o) -> em_of em p = EReady \/ em_of em p = EDead ->
+              HC (rev (ps_rev (p_ret H p out))) (ps_map (p_ret H p out)) (ps_next (p_ret H p out)) /\
+              keys_ok em (ps_map (p_ret H p out))).
+    { intros out [o Ho] Hem. pose proof (HK p) as Hk. rewrite Ho in Hk.
+      apply in_map_iff in Hk. destruct Hk as [[k id] [E Hin]]. cbn [fst] in E. subst k.
+      unfold p_ret. cbn [ps_rev ps_next ps_map rev]. rewrite (pm_get_in _ _ _ (hc_c4 _ _ _ HCo) Hin). split.
+      - exact (hc_ret _ _ _ _ _ out HCo Hin).
+      - intros q. destruct (N.eq_dec q p) as [->|Hq].
+        + destruct Hem as [E|E]; rewrite E; [|exact I]. rewrite in_keys_del. tauto.
+        + rewrite (Hoth q Hq). pose proof (HK q) as Hkq. destruct (em_of em0 q); [| |exact I].
+          * rewrite in_keys_del. tauto.
+          * rewrite in_keys_del. tauto. }
+    destruct e as [t r i v]. cbn [e_id e_res] in *. unfold event_kind. cbn [e_type e_res e_id e_val].
+    destruct r.
+    + (* invoked *)
+      destruct Hres as [Hready [o Hpend]].
+      pose proof (HK p) as Hk. rewrite Hready in Hk.
+      assert (Hgoal : forall inp, HC (rev (ps_rev (p_call H p inp))) (ps_map (p_call H p inp)) (ps_next (p_call H p inp)) /\
+                                  keys_ok em (ps_map (p_call H p inp))).
+      { intros inp. unfold p_call, pm_set. cbn [ps_rev ps_next ps_map rev]. rewrite (pm_del_notin _ _ Hk). split.
+        - exact (hc_call _ _ _ _ inp HCo Hk).
+        - intros q. cbn [map fst In]. destruct (N.eq_dec q p) as [->|Hq].
+          + rewrite Hpend. left. reflexivity.
+          + rewrite (Hoth q Hq). pose proof (HK q) as Hkq. destruct (em_of em0 q); [|right; exact Hkq|exact I].
+            intros [E|Hin]; [apply Hq; symmetry; exact E|exact (Hkq Hin)]. }
+      destruct t; cbn [pstep]; apply Hgoal.
+    + (* completed *)
+      destruct Hres as [Hp Hr]. destruct t; cbn [pstep]; apply Hret; auto.
+    + (* failed *)
+      destruct Hres as [Hp Hr]. destruct t; cbn [pstep].
+      * apply Hret; auto.
+      * split; [exact HCo|]. intros q. destruct (N.eq_dec q p) as [->|Hq]; [rewrite Hr; exact I|].
+        rewrite (Hoth q Hq). exact (HK q).
+Qed.
+
+Theorem wf_events_complete : forall es, wf_events es = true ->
+  forall h, history_allowed es h -> wf h.
+Proof.
+  intros es Hwf h [tail [Hperm Eh]]. unfold wf_events in Hwf.
+  destruct (emon_run emon_init es) as [em|] eqn:Hrun; [|discriminate Hwf].
+  destruct (hc_events es em Hrun) as [HCo _].
+  rewrite expected_open_hstate in Hperm. rewrite expected_main_hstate in Eh. subst h.
+  exact (hc_final _ _ _ _ HCo Hperm).
+Qed.
